@@ -62,7 +62,7 @@ PROPS = {
     "C11": {"level": "exploration", "assumptions": SIM_ASSUME + ["the 3 s persist interval is checked for its stated bound with 1.5 s slack on the sandbox clock; a canary timer turns starvation into 'inconclusive'"],
             "parts": [sim("TestC11Sim", q=(300, 4), t=(4000, 16)),
                       {"pkg": "sim", "test": "TestC11Persist", "quick": {"checks": 1, "shards": 1, "shrink": "0s", "timeout": "10m"}, "thorough": {"checks": 4, "shards": 4, "shrink": "0s", "timeout": "1h"}},
-                      rp("procs", "TestC11Binary", (3, 1), (15, 4), helpers=["cmd/vhelper", "pkg:github.com/Flowpack/prunner/cmd/prunner"])]},
+                      rp("procs", "TestC11Binary", (8, 2), (80, 8), helpers=["cmd/vhelper", "pkg:github.com/Flowpack/prunner/cmd/prunner"])]},
     "C12": {"level": "exploration", "assumptions": SIM_ASSUME + ["the wall clock of the sandbox: generated job ages stay >=25% away from the retention period boundaries"],
             "parts": [sim("TestC12", q=(250, 4), t=(2500, 16))]},
     "C13": {"level": "exploration", "assumptions": ["the Go race detector (-race, Go 1.23.5) and the runtime's concurrent-map checks are the oracle; they see only executed paths within the detector's history window", "the harness's own runner, stores and counters are race-clean (they run under the same detector)"],
@@ -90,7 +90,8 @@ PROPS = {
                       {"pkg": "inputs", "fuzz": "FuzzC17Load", "thorough": {"fuzztime": "180s", "wall": 900}}]},
     "C18": {"level": "exploration", "assumptions": ["the in-process part wires the task runner as app.appAction does (pipeline env as runner env, real FileOutputStore); the binary part runs the program itself", "real processes via cmd/vhelper; the environment of the test process stands for the prunner process"],
             "parts": [rp("procs", "TestC18", (40, 2), (1500, 8), helpers=["cmd/vhelper"]),
-                      rp("procs", "TestC18Binary", (4, 1), (80, 4), helpers=["cmd/vhelper", "pkg:github.com/Flowpack/prunner/cmd/prunner"])]},
+                      rp("procs", "TestC18Binary", (4, 1), (80, 4), helpers=["cmd/vhelper", "pkg:github.com/Flowpack/prunner/cmd/prunner"]),
+                      rp("procs", "TestC18Reload", (3, 1), (30, 4), helpers=["cmd/vhelper", "pkg:github.com/Flowpack/prunner/cmd/prunner"])]},
     "C19": {"level": "exploration", "assumptions": ["the in-process part wires the task runner as app.appAction does, the binary part runs the program itself; real processes via cmd/vhelper", "task names are single path components (no '/' or NUL)"],
             "parts": [rp("procs", "TestC19", (40, 2), (400, 8), helpers=["cmd/vhelper"]),
                       rp("procs", "TestC19Binary", (4, 1), (80, 4), helpers=["cmd/vhelper", "pkg:github.com/Flowpack/prunner/cmd/prunner"])]},
